@@ -100,6 +100,22 @@ func checkC11(w *World, r *Report) {
 	r.Rule("R11.9", "the outcome does not depend on what was compiled or parsed before: package-level state of parse/, compile/, schema/ and data/ is never written after initialisation (no memo, pool or table filled at run time), apart from the reviewed debug switch and built-in type environment", 2)
 	r.guard("R11.9", func() { c06GlobalsIn(w, r, "R11.9", []string{"parse", "compile", "schema", "data/encoding", "data/datanode"}) })
 
+	r.Rule("R11.10", "a name clash between modules is an error, not a race between them: the store into the name-keyed child map happens only when the name is not present (same obligation as R12.6) — otherwise the module visited last by the map iteration of NewModelSet wins", 2)
+	r.guard("R11.10", func() { c12NoOverwriteRule(w, r, "R11.10") })
+
+	r.Rule("R11.11", "the grouping cycle check visits every statement: validateGroupingsWalk calls itself for every child on every iteration (groupings sit below containers that are reached through choices, cases and uses too), so no cycle survives to the unguarded expansion", 1)
+	r.guard("R11.11", func() {
+		f := w.SSAFunc(w.Method("compile", "Compiler", "validateGroupingsWalk"))
+		if f == nil {
+			panic(undecided{"Compiler.validateGroupingsWalk"})
+		}
+		found, ok, why := everyIterationCalls(f, func(c ssa.CallInstruction) bool { return c.Common().StaticCallee() == f })
+		if !found {
+			panic(undecided{"validateGroupingsWalk: recursive descent"})
+		}
+		r.Check(ok, "R11.11", "validateGroupingsWalk descends into every child", f.Pos(), "recursive call on every iteration", "some statements are skipped by the cycle check ("+why+"): a grouping cycle below them reaches expandGroupings, which recurses until the stack overflows (not recoverable)")
+	})
+
 	r.Rule("R11.6", "no compile error is forgotten: in package compile every error result bound to a variable is examined (the two os.Open calls of the file-system feature scan are reviewed)", 1)
 	r.guard("R11.6", func() {
 		errRule(w, r, "R11.6", []string{"compile"}, map[string]string{
